@@ -17,10 +17,13 @@ import (
 	"path/filepath"
 	"regexp"
 	"runtime"
+	"runtime/debug"
 	"sort"
 	"strconv"
 	"strings"
 	"sync"
+	"sync/atomic"
+	"syscall"
 	"time"
 )
 
@@ -54,6 +57,9 @@ type Check struct {
 	WorkerTimeout time.Duration
 	// Env adds environment variables to worker processes.
 	Env []string
+	// CPUBudget (seconds of process CPU time per case) turns "never hangs" into a logical bound:
+	// a case that burns more is reported as a hang with the stack of the running goroutine.
+	CPUBudget float64
 }
 
 var registry = map[string]*Check{}
@@ -348,6 +354,9 @@ func workerMain(ch *Check, tier string, seed int64, shard, nshards, from int, ou
 	if ch.Init != nil {
 		ch.Init(c)
 	}
+	if ch.CPUBudget > 0 {
+		startCPUMonitor(ch.CPUBudget)
+	}
 	n := ch.NumCases(tier)
 	lastSnap := time.Now()
 	i := shard
@@ -356,7 +365,9 @@ func workerMain(ch *Check, tier string, seed int64, shard, nshards, from int, ou
 			continue
 		}
 		fmt.Fprintf(jf, "B %d\n", i)
+		cpuCaseStart(i)
 		ch.Case(c, i, caseRng(seed, ch.ID, i))
+		cpuCaseEnd()
 		fmt.Fprintf(jf, "E %d\n", i)
 		if time.Since(lastSnap) > 2*time.Second {
 			writeJSONAtomic(outFile, c.snapshot(false, i+nshards))
@@ -364,6 +375,75 @@ func workerMain(ch *Check, tier string, seed int64, shard, nshards, from int, ou
 		}
 	}
 	writeJSONAtomic(outFile, c.snapshot(true, i))
+}
+
+// ---- CPU budget monitor (worker side) -----------------------------------------------------------
+
+var (
+	cpuCase      atomic.Int64 // current case or -1
+	cpuCaseBegin atomic.Int64 // process CPU nanoseconds at case start
+)
+
+func processCPU() int64 {
+	var ru syscall.Rusage
+	syscall.Getrusage(syscall.RUSAGE_SELF, &ru)
+	return ru.Utime.Nano() + ru.Stime.Nano()
+}
+
+func cpuCaseStart(i int) {
+	cpuCaseBegin.Store(processCPU())
+	cpuCase.Store(int64(i))
+}
+
+func cpuCaseEnd() { cpuCase.Store(-1) }
+
+func startCPUMonitor(budgetSec float64) {
+	cpuCase.Store(-1)
+	debug.SetTraceback("crash")
+	go func() {
+		for {
+			time.Sleep(250 * time.Millisecond)
+			i := cpuCase.Load()
+			if i < 0 {
+				continue
+			}
+			used := float64(processCPU()-cpuCaseBegin.Load()) / 1e9
+			if used > budgetSec && cpuCase.Load() == i {
+				fmt.Fprintf(os.Stderr, "\nVERIF-CPU-BUDGET-EXCEEDED case=%d cpu=%.1fs budget=%.1fs\n", i, used, budgetSec)
+				syscall.Kill(os.Getpid(), syscall.SIGQUIT)
+				time.Sleep(30 * time.Second)
+				os.Exit(97)
+			}
+		}
+	}()
+}
+
+// mainGoroutineFrames extracts the innermost elk frames of goroutine 1 from a SIGQUIT dump.
+func mainGoroutineFrames(stderr string) string {
+	idx := strings.Index(stderr, "\ngoroutine 1 ")
+	if idx < 0 {
+		return "?"
+	}
+	var frames []string
+	for _, ln := range strings.Split(stderr[idx+1:], "\n")[1:] {
+		if strings.HasPrefix(ln, "goroutine ") || ln == "" {
+			break
+		}
+		if strings.HasPrefix(ln, "github.com/elk-language/elk/") {
+			fn := ln
+			if i := strings.LastIndex(fn, "("); i > 0 {
+				fn = fn[:i]
+			}
+			frames = append(frames, strings.TrimPrefix(fn, "github.com/elk-language/elk/"))
+			if len(frames) == 3 {
+				break
+			}
+		}
+	}
+	if len(frames) == 0 {
+		return "?"
+	}
+	return strings.Join(frames, "<")
 }
 
 // ---- parent: sharded supervision -------------------------------------------------------------
@@ -527,6 +607,13 @@ func runSharded(c *Ctx) {
 				exit := -1
 				if ee, ok := err.(*exec.ExitError); ok {
 					exit = ee.ExitCode()
+				}
+				if strings.Contains(stderr, "VERIF-CPU-BUDGET-EXCEEDED") && open >= 0 {
+					c.Count("cpu_budget_exceeded", 1)
+					c.Violate("hang:"+mainGoroutineFrames(stderr), fmt.Sprintf("case %d exceeded its CPU budget (restated termination: %gs of process CPU for one input)\n%s", open, ch.CPUBudget, head(stderr[strings.Index(stderr, "VERIF-CPU-BUDGET-EXCEEDED"):], 2500)), open,
+						map[string]any{"case": open, "replay": fmt.Sprintf("./check %s --tier %s --seed %d --case %d", c.ID, c.Tier, c.Seed, open)})
+					from = open + 1
+					continue
 				}
 				if exit == 124 || strings.Contains(head(stderr, 4000), "SIGQUIT: quit") {
 					c.Inconclusive(fmt.Sprintf("worker %d watchdog fired at case %d", s, open))
@@ -742,3 +829,5 @@ func runCheck(ch *Check, tier string, seed int64, oneCase int) int {
 	}
 	return c.finish(start)
 }
+
+func debugStack() []byte { return debug.Stack() }
